@@ -291,6 +291,12 @@ theorem mod_of_add_mod {a n m : Nat} (h1 : (a + n) % m = 0) (h2 : a % m = 0) : n
   have := Nat.sub_mod_eq_zero_of_mod_eq (m := a + n) (n := a) (k := m) (by rw [h1, h2])
   simpa using this
 
+/-- where the chain ends: after the terminating slot, or at the new slot when the last item carries the `MAX` marker -/
+def PushWalk.endPos (os : Nat) (w : PushWalk) : Nat :=
+  match w.sealing with
+  | none => w.pos + os
+  | some _ => w.pos
+
 /-- what `FlexVec::push`'s walk finds at the end of a chain: where the new slot goes (and how the current last item will
 be sealed), how any chain written there extends the sequence, and that bytes from the new slot's payload on do not matter -/
 structure PushEnd (d : Dict) (l : LenTy) (os pos : Nat) (data : Slice) (items : List (Nat × Bytes)) (w : PushWalk) : Prop where
@@ -308,6 +314,8 @@ structure PushEnd (d : Dict) (l : LenTy) (os pos : Nat) (data : Slice) (items : 
       Chain d l os pos ⟨data.addr, b'⟩ (items ++ tail)
   keep : ∀ (b' : Bytes), b'.length = data.len → w.pos - pos + os ≤ data.len →
       b'.take (w.pos - pos + os) = data.bytes.take (w.pos - pos + os) → Chain d l os pos ⟨data.addr, b'⟩ items
+  /-- `size()` of the vector is where the walk ended -/
+  size : ∀ f, data.len < f → flexSize d l os (max l.align d.align) f pos data = .ok (w.endPos os)
 
 theorem pushWalk_spec (it : Ty) (l : LenTy) (hd : Law it.dict) (hfd : FrameLaw it.dict) (hl : l.Law)
     {pos : Nat} {data : Slice} {items : List (Nat × Bytes)}
@@ -344,7 +352,11 @@ theorem pushWalk_spec (it : Ty) (l : LenTy) (hd : Law it.dict) (hfd : FrameLaw i
           simp only [Nat.sub_self, Nat.zero_add] at htk
           exact Chain.term hal (by simp only [Slice.len, hbl]; exact hlen)
             (by rw [← hr]; exact readU_congr l data ⟨data.addr, b'⟩ rfl hlen (by simp only [Slice.len, hbl]; exact hlen)
-                  (take_take_eq htk hls)) }
+                  (take_take_eq htk hls))
+        size := by
+          intro f hf
+          obtain ⟨g, rfl⟩ : ∃ g, f = g + 1 := ⟨f - 1, by omega⟩
+          rw [flexSize_term it.dict l _ _ g pos data hr]; rfl }
   | @last pos data z hal hlen hr hn h2 hv hz =>
     intro hend fuel hf
     cases fuel with
@@ -414,7 +426,12 @@ theorem pushWalk_spec (it : Ty) (l : LenTy) (hd : Law it.dict) (hfd : FrameLaw i
             exact Chain.last (z := z) hal (by simp only [Slice.len, hbl]; omega)
               (by rw [← hr]; exact readU_congr l data ⟨data.addr, b'⟩ rfl hlen (by simp only [Slice.len, hbl]; omega) (take_take_eq htk (by omega)))
               hn (by simp only [Slice.len, hbl]; omega)
-              (validate_ok_iff.2 ⟨hia, by simp only [Slice.len, Slice.drop, List.length_drop, hbl]; omega, hloc.1⟩) hloc.2 }
+              (validate_ok_iff.2 ⟨hia, by simp only [Slice.len, Slice.drop, List.length_drop, hbl]; omega, hloc.1⟩) hloc.2
+          size := by
+            intro f hf
+            obtain ⟨g, rfl⟩ : ∃ g, f = g + 1 := ⟨f - 1, by omega⟩
+            rw [flexSize_last it.dict l _ _ g pos l.max data hr hn rfl h2 z hz2, ← hlodef]
+            simp only [PushWalk.endPos, Nat.add_assoc] }
       · exact ⟨.error ⟨.insufficientSize, pos + (max l.size it.dict.align + ceilMul z (max l.align it.dict.align))⟩,
           by simp [pushWalk, readSlot, hck, hr, hn, Slice.splitAt, h2, hv, hz2, hlo], rfl⟩
   | @item pos data next z rest hal hlen hr hn hmax h1 h2 hv hz hrest ih =>
@@ -514,7 +531,12 @@ theorem pushWalk_spec (it : Ty) (l : LenTy) (hd : Law it.dict) (hfd : FrameLaw i
               (by
                 show (b'.drop next).take _ = (data.bytes.drop next).take _
                 exact drop_take_eq htk (by omega))
-            exact rebuild b' rest hbl (take_take_eq htk (by omega)) hk }
+            exact rebuild b' rest hbl (take_take_eq htk (by omega)) hk
+          size := by
+            intro f hf
+            obtain ⟨g, rfl⟩ : ∃ g, f = g + 1 := ⟨f - 1, by omega⟩
+            rw [flexSize_item it.dict l _ _ g pos next data hr hn hmax h2]
+            exact hp.size g (by simp only [Slice.len_drop]; omega) }
 
 theorem lmax_ne_zero (l : LenTy) (hl : l.Law) : l.max ≠ 0 := by
   have hp := hl.size_pow2.pos
@@ -633,4 +655,81 @@ theorem flexPush_spec (it : Ty) (l : LenTy) (hd : Law it.dict) (hfd : FrameLaw i
           exact hp.ext b3 _ hb3l (by
             simp only [hs, Nat.sub_zero]
             exact ⟨bq, hbq, writeAt_congr_take hb3 hbq w.pos (by rw [encLenTy_length]; omega) hb2t⟩) hc
+
+/-- **a refused `push` leaves `size()` as it was** (whatever it scribbled into the spare room behind the chain) -/
+theorem flexPush_refused_size (it : Ty) (l : LenTy) (hd : Law it.dict) (hfd : FrameLaw it.dict) (hl : l.Law)
+    (i : Init) (hemp : EmplaceSpec it i) (data : Slice) (items : List (Nat × Bytes))
+    (h : Chain it.dict l (max l.size it.dict.align) 0 data items)
+    (hend : data.len % max l.align it.dict.align = 0) (o : EO) (ho : flexPush it l i data = .ok o) (e : Err)
+    (hres : o.res = .error e) :
+    ∀ f, data.len < f →
+      flexSize it.dict l (max l.size it.dict.align) (max l.align it.dict.align) f 0 ⟨data.addr, o.bytes⟩ =
+        flexSize it.dict l (max l.size it.dict.align) (max l.align it.dict.align) f 0 data := by
+  have hls : l.size ≤ max l.size it.dict.align := Nat.le_max_left _ _
+  have hpa := hd.align_pow2
+  have hospos : 0 < max l.size it.dict.align := Nat.lt_of_lt_of_le hl.size_pow2.pos hls
+  have hdl : data.len = data.bytes.length := rfl
+  have hself : (⟨data.addr, data.bytes⟩ : Slice) = data := by cases data; rfl
+  obtain ⟨_, hal⟩ := Chain.slot_len it.dict l hd hfd hl h
+  obtain ⟨r, hr, hspec⟩ := pushWalk_spec it l hd hfd hl h (add_mod_zero hal hend) (data.len + 1) (Nat.lt_succ_self _)
+  simp only [flexPush, hr, Res.bind_ok] at ho
+  intro f hf
+  cases r with
+  | error e' =>
+    simp only [Res.ok.injEq] at ho
+    rw [← ho, hself]
+  | ok w =>
+    have hp : PushEnd it.dict l (max l.size it.dict.align) 0 data items w := hspec
+    have hle := hp.le
+    simp only [Nat.sub_zero] at hle
+    have hnl : ¬ data.len < w.pos := by omega
+    simp only [hnl, if_false] at ho
+    by_cases hroom : data.len - w.pos < max l.size it.dict.align
+    · simp only [hroom, if_true, Res.ok.injEq] at ho
+      rw [← ho, hself]
+    · simp only [hroom, if_false] at ho
+      obtain ⟨oi, hoi, hol, _⟩ := hemp ⟨data.addr + w.pos + max l.size it.dict.align, data.bytes.drop (w.pos + max l.size it.dict.align)⟩
+      simp only [Slice.len, List.length_drop] at hol
+      simp only [hoi, Res.bind_ok] at ho
+      have hb1l : (data.bytes.take (w.pos + max l.size it.dict.align) ++ oi.bytes).length = data.len := by
+        simp only [List.length_append, List.length_take, hol]; omega
+      have hb1t : (data.bytes.take (w.pos + max l.size it.dict.align) ++ oi.bytes).take (w.pos + max l.size it.dict.align)
+          = data.bytes.take (w.pos + max l.size it.dict.align) := by
+        rw [List.take_left' (by simp only [List.length_take]; omega)]
+      cases hri : oi.res with
+      | error e' =>
+        rw [hri] at ho
+        simp only [Res.ok.injEq] at ho
+        rw [← ho]
+        -- the size of a valid chain depends only on the bytes below its end, and those are untouched
+        have hvalid := flexValidate_any_fuel it.dict l hl hpa _ hospos _ 0 data
+          (Chain.flexOK it.dict l hd hfd hl h).choose_spec f hf
+        obtain ⟨E, hE, _, _, _, hloc, _⟩ := flex_chain it.dict l hd hfd hl f 0 data hf hend hvalid
+        have hsz := hp.size f hf
+        rw [hE] at hsz
+        have hEle : E ≤ w.pos + max l.size it.dict.align := by
+          simp only [Res.ok.injEq, Nat.zero_add] at hsz
+          rw [hsz]; unfold PushWalk.endPos; split <;> omega
+        have := (hloc f 0 ⟨data.addr, data.bytes.take (w.pos + max l.size it.dict.align) ++ oi.bytes⟩ rfl
+          (by simp only [Slice.len, hb1l]; exact hf) (by simp only [Slice.len, hb1l]; omega)
+          (take_take_eq hb1t hEle)).2
+        rw [this, hE]
+      | ok u =>
+        exfalso
+        rw [hri] at ho
+        simp only [] at ho
+        cases hw1 : writeAt (data.bytes.take (w.pos + max l.size it.dict.align) ++ oi.bytes) w.pos (encLenTy l l.max) with
+        | ok b2 =>
+          simp only [hw1, Res.bind_ok] at ho
+          cases hs : w.sealing with
+          | none => simp only [hs, Res.ok.injEq] at ho; rw [← ho] at hres; cases hres
+          | some ql =>
+            obtain ⟨q, lo⟩ := ql
+            simp only [hs] at ho
+            cases hw2 : writeAt b2 q (encLenTy l lo) with
+            | ok b3 => simp only [hw2, Res.bind_ok, Res.ok.injEq] at ho; rw [← ho] at hres; cases hres
+            | err e' => rw [hw2] at ho; cases ho
+            | fault f' => rw [hw2] at ho; cases ho
+        | err e' => rw [hw1] at ho; cases ho
+        | fault f' => rw [hw1] at ho; cases ho
 end FV
